@@ -180,7 +180,10 @@ func (root *Root) resolve(
 					// Not this member, a later one may still match.
 					lastErr = err
 				} else if objType == meta {
-					result, ea = root.resolveFieldSels(obj, vars, field, m, depth-1)
+					// A union defines no fields of its own. Fields are selected
+					// in fragments, they and __typename look at the member
+					// type of the object, see runtimeType.
+					result, ea = root.resolveFieldSels(obj, vars, field, tt, depth-1)
 					matched = true
 					break
 				}
